@@ -13,24 +13,28 @@ import (
 
 var errVerifStorage = errors.New("injected storage failure")
 
-func verifStorage() *stub.Queryable {
-	return &stub.Queryable{Ser: []*stub.Series{
-		stub.NewSeries(stub.Labels("__name__", "m", "a", "x"), nil),
-		stub.NewSeries(stub.Labels("__name__", "m", "a", "y"), nil),
-		stub.NewSeries(stub.Labels("__name__", "n", "a", "x"), nil),
-	}, FaultErr: errVerifStorage}
+var verifNames = []string{"s0", "s1", "s2", "s3", "s4"}
+
+func verifStorage(n int) *stub.Queryable {
+	var ser []*stub.Series
+	for i := 0; i < n; i++ {
+		ser = append(ser, stub.NewSeries(stub.Labels("__name__", "m", "a", verifNames[i]), nil))
+	}
+	ser = append(ser, stub.NewSeries(stub.Labels("__name__", "n", "a", "x"), nil))
+	return &stub.Queryable{Ser: ser, FaultErr: errVerifStorage}
 }
 
 // VerifH17a: the series selector opens one querier per load, closes it exactly once on
 // every path (success, storage error at any callback, panic at any callback), surfaces
 // storage errors, shards the loaded series contiguously, and loads at most once.
 func VerifH17a() {
-	q := verifStorage()
+	nSeries := sym.IntRange("series", 0, 5)
+	q := verifStorage(nSeries)
 	q.FaultMode = sym.Choice("faultMode", 4) // 0 none, 1 error, 2 panic(error), 3 panic(string)
 	m := labels.MustNewMatcher(labels.MatchEqual, "__name__", "m")
 	sel := newSeriesSelector(q, 0, 1000, 10, []*labels.Matcher{m}, promstorage.SelectHints{Start: 0, End: 1000})
 	ctx := context.Background()
-	numShards := sym.IntRange("shards", 1, 3)
+	numShards := sym.IntRange("shards", 1, 4)
 	var got [][]SignedSeries
 	var firstErr error
 	panicked := false
@@ -62,13 +66,12 @@ func VerifH17a() {
 		total := 0
 		for sh, ss := range got {
 			for _, s := range ss {
-				want := []string{"x", "y"}[total]
-				sym.Assert("C02/shard/order", s.Labels().Get("a") == want && s.Labels().Get("__name__") == "m")
+				sym.Assert("C02/shard/order", total < nSeries && s.Labels().Get("a") == verifNames[total%5] && s.Labels().Get("__name__") == "m")
 				total++
 			}
 			_ = sh
 		}
-		sym.Assert("C02/shard/partition", total == 2)
+		sym.Assert("C02/shard/partition", total == nSeries)
 	} else if firstErr != nil {
 		// D25: a failed load must fail for every caller, not only the first
 		for sh := 0; sh < numShards; sh++ {
